@@ -23,8 +23,9 @@ def make_jobs(ctx):
     script = [{'call': 'f', 'assume': {0: '$ <= 3'}}]
     bm = F.branch_matrix()
     if ctx.quick:
-        # quick: every 3rd of the matrix (deterministic) + all br_table/locals shapes
-        sel = [x for i, x in enumerate(bm) if not x[0].startswith('br_') or i % 3 == (ctx.seed % 3)]
+        # every 5th br_/brtable_val_ shape, rotating with the seed (stride coprime to the matrix's inner period of 6, so that every
+        # (extra operands, br/br_if) combination is present for every seed) + all other shapes
+        sel = [x for i, x in enumerate(bm) if not (x[0].startswith('br_') or x[0].startswith('brtable_val_')) or i % 5 == (ctx.seed % 5) or i % 7 == (ctx.seed % 7)]
     else:
         sel = bm
     for name, m in sel:
